@@ -9,7 +9,10 @@ import (
 	"fmt"
 	"os"
 	"strings"
+	"sync"
+	"sync/atomic"
 	"testing"
+	"time"
 
 	"pgregory.net/rapid"
 
@@ -170,4 +173,64 @@ func replay[C any](t *testing.T, id, path string, rec *evid.Rec, check func(C, *
 		t.Fatalf("property %s violated on replay: %s: %s", id, bad[0].Key, bad[0].Msg)
 	}
 	fmt.Printf("replay: property %s held on this case\n", id)
+}
+
+// ---- hang watchdog ----
+
+type pending struct {
+	id, test string
+	c        any
+	since    time.Time
+}
+
+var (
+	curCase   atomic.Pointer[pending]
+	watchOnce sync.Once
+)
+
+// HangLimit is the wall-clock time after which a single call of the code under
+// test is declared hung. Expected cost is milliseconds; the margin is four
+// orders of magnitude so that a loaded machine cannot raise the alarm.
+var HangLimit = 20 * time.Second
+
+// Watch registers the case about to be executed with the hang watchdog and
+// returns the function to call when it is done. If a case stays pending for
+// HangLimit the watchdog writes it as current-case.json and exits the process.
+func Watch(id, test string, c any) func() {
+	watchOnce.Do(func() {
+		go func() {
+			for {
+				time.Sleep(time.Second)
+				p := curCase.Load()
+				if p != nil && time.Since(p.since) > HangLimit {
+					if dir := os.Getenv("VERIF_FAIL"); dir != "" {
+						b, _ := json.MarshalIndent(failDoc{Property: p.id, Test: p.test, Case: p.c,
+							Violations: []Violation{V("hang", "a single call did not return within %v", HangLimit)}}, "", " ")
+						_ = os.WriteFile(dir+"/current-case.json", b, 0o644)
+					}
+					fmt.Printf("HANG: property %s: a call did not return within %v\n", p.id, HangLimit)
+					os.Exit(3)
+				}
+			}
+		}()
+	})
+	curCase.Store(&pending{id, test, c, time.Now()})
+	return func() { curCase.Store(nil) }
+}
+
+// PreRecord writes the case as current-case.json before it is executed, for
+// sub-engines in which a failure kills the process (a panic in a library
+// goroutine). ClearRecord removes it afterwards.
+func PreRecord(id, test string, c any) {
+	if dir := os.Getenv("VERIF_FAIL"); dir != "" {
+		b, _ := json.Marshal(failDoc{Property: id, Test: test, Case: c,
+			Violations: []Violation{V("process-crash", "the process died while this case was running")}})
+		_ = os.WriteFile(dir+"/current-case.json", b, 0o644)
+	}
+}
+
+func ClearRecord() {
+	if dir := os.Getenv("VERIF_FAIL"); dir != "" {
+		_ = os.Remove(dir + "/current-case.json")
+	}
 }
